@@ -36,6 +36,8 @@ def check(repo, tier="quick"):
     res.rule("C10.d", "no function reachable from parse_stream mutates module-level/class-level/default-argument/function-attribute state or stores a shared module-level object into state")
     res.rule("C10.e", "every sequence ends byte aligned (retained I/O position carries no sub-byte residue)")
     res.rule("C10.f", "the checker's own positive fixture for C10.d still matches")
+    res.rule("C10.g", "an object stored into state by reference from a module-level table is never mutated through state (it is replaced by a fresh object on every path first)")
+    res.rule("C10.h", "all validation happens inside parse_sequence: parse_stream itself only loops over parse_sequence")
 
     rule_a(repo, res)
     retained = rule_b(repo, res)
@@ -43,6 +45,10 @@ def check(repo, tier="quick"):
     rule_d(repo, res)
     rule_e(repo, res)
     rule_fixture(repo, res)
+    rule_g(repo, res)
+    rule_h(repo, res)
+    res.floor("C10.g", 1)
+    res.floor("C10.h", 1)
     res.floor("C10.a", 2)
     res.floor("C10.b", 1)
     res.floor("C10.c", 5)
@@ -390,3 +396,38 @@ def rule_fixture(repo, res):
     for want in ("global/nonlocal", "store", "mutator", "shared-into-state"):
         res.check(want in kinds, "C10.f", "fixture:%s" % want, "vcheck/props/c10.py:FIXTURE", "the shared-state scanner no longer recognises its own %r example" % want, by="matched")
     res.check(kinds.count("store") == 2, "C10.f", "fixture:no-false-store", "vcheck/props/c10.py:FIXTURE", "store matches: %s (expected exactly CACHE[x] and f.calls)" % kinds, by="local dict store not flagged")
+
+
+def rule_g(repo, res):
+    sf = analyses.validator_stateflow(repo)
+    res.info["state_keys_aliasing_module_tables"] = dict(sf.alias_keys)
+    if not sf.alias_keys:
+        raise AnalysisError("no state key is assigned from a module-level table any more (set_quant_matrix anchor moved)")
+    groups = {}
+    for mod, fn, node, k, ok, stack in sf.alias_muts:
+        g = groups.setdefault((mod.rel, fn, k), [True, None, None])
+        if not ok:
+            g[0] = False
+            g[1] = node
+            g[2] = stack
+    for (rel, fn, k), (ok, node, stack) in groups.items():
+        res.check(ok, "C10.g", "%s:mutates state[%s]" % (fn, k), "%s:%s" % (rel, fn), "state[%r] may refer to the module-level object stored by %s; `%s` mutates it in place, so one sequence changes the table every later sequence (and stream) reads" % (k, sf.alias_keys.get(k), short(node) if node is not None else ""), by="state[%r] is replaced by a fresh object on every path before it is mutated" % k)
+    for k, src in sf.alias_keys.items():
+        if not any(key[2] == k for key in groups):
+            res.ok("C10.g", "state[%s]:never-mutated" % k, src.split(" ")[0], by="aliased table object is only read")
+
+
+def rule_h(repo, res):
+    m, fn = repo.func("decoder.stream:parse_stream")
+    body = [s for s in fn.body if not (isinstance(s, ast.Expr) and isinstance(s.value, ast.Constant))]
+    ok = (
+        len(body) == 1
+        and isinstance(body[0], ast.While)
+        and not body[0].orelse
+        and len(body[0].body) == 1
+        and isinstance(body[0].body[0], ast.Expr)
+        and isinstance(body[0].body[0].value, ast.Call)
+        and dotted(body[0].body[0].value.func) == "parse_sequence"
+    )
+    extra = [short(s, 60) for s in body[1:]] + ([short(s, 60) for s in body[0].body[1:]] if body and isinstance(body[0], ast.While) else [])
+    res.check(ok, "C10.h", "parse_stream:only-loops-over-sequences", "%s:parse_stream" % m.rel, "parse_stream does more than `while not end: parse_sequence(state)` (%s): a check made after the loop sees only the last sequence's state (earlier sequences were reset), a check made between sequences couples them" % extra, by="while not is_end_of_stream(state): parse_sequence(state)")
